@@ -309,7 +309,7 @@ DELETE_OK = {
 def r4_global_heap(res, facts):
     r = res.rule('C19-R4', 'non-placement new and delete in library code are confined to objects that are not managed by the pluggable manager (ICU / Xerces / C API), each site reviewed', floor=25)
     for n in facts.D['NEW']:
-        if n['placement'] != 0 or n['from'] not in facts.F or '/verif/' in n['loc']:
+        if n['placement'] != 0 or n['from'] not in facts.F or common.FIXTURE_PREFIX in n['loc']:
             continue
         fn = strip_targs(short(facts.name[n['from']]))
         site = 'new %s in %s' % (short(n['type']), fn)
@@ -318,7 +318,7 @@ def r4_global_heap(res, facts):
         else:
             r.violation(site, 'object allocated with global operator new: it bypasses the pluggable memory manager', n['loc'].replace('/repo/', ''))
     for d in facts.D['DEL']:
-        if '/verif/' in d['loc']:
+        if common.FIXTURE_PREFIX in d['loc']:
             continue
         fn = strip_targs(short(facts.name.get(d['from'], '?')))
         site = 'delete %s in %s' % (short(d['type']).replace('const ', ''), fn)
